@@ -87,9 +87,8 @@ class Sc:
         s.nout = cfg.pop('nout', None)          # documented number of new variables (in, out) on success
         s.cfg = dict(est=0, std=0, varz=0, single=-1, dgm=0, xvalid=0, xv_est=0, xv_std=0, xv_varz=0, neigh_only=0, nbneigh=5,
                      matlc=0, mnvar=1, mndim=2, nndim=2, nfex=0, extra_ok=1, iuids=[], locate=0, loctype=-1, nbsimu=1, mode=0,
-                     n=0, has_in=1, fixed=0)
+                     n=0, has_in=1)
         s.cfg.update(cfg); s.tags = []
-        if os.environ.get('VERIF_C19_FIXED'): s.cfg['fixed'] = 1     # development aid: model of the code with fixes/C19_*.patch applied
     def impl_case(s):
         return [s.id, s.sub, s.p, s.nc, db_sx(s.dbin), db_sx(s.dbout if not s.alias else s.dbin), s.alias, s.fail_after, s.aux]
     def name(s): return CALC[s.id]
@@ -147,7 +146,8 @@ def kriging_scenarios(rng, quick):
     out.append(mk(0, model=0, nz=2, variant='nvar-mismatch', natural='check'))
     out.append(mk(0, nx=(3, 3, 2), variant='dbout-3d', natural='check'))
     out.append(mk(0, calcul=1, ndisc=2, gout=False, nx=(1, 1), variant='block-on-points', natural='run'))
-    out.append(mk(0, nz=0, variant='no-z-variable', natural='any'))
+    out.append(mk(0, nz=0, variant='no-z-variable', natural='check'))
+    out.append(mk(3, nz=0, neigh=1, variant='test-neigh-no-z-variable', natural='any'))
     out.append(mk(0, neigh=4, variant='image-neigh', natural='any'))
     # krigtest (single target: outputs registered as temporary)
     out.append(mk(1, iech0=0, variant='single-target'))
@@ -259,7 +259,7 @@ def simfft_scenarios(rng, quick):
     out = []
     def mk(nbsimu=1, model=0, variant='std', natural=None):
         dbout = grid_db((4, 4)); nc = NC('FFT')
-        sc = Sc(5, 0, [nbsimu, model], nc, grid_db((2, 2)), dbout, variant=variant, natural=natural, nout=(0, 1),
+        sc = Sc(5, 0, [nbsimu, model], nc, grid_db((2, 2)), dbout, variant=variant, natural=natural, nout=(0, nbsimu),
                 mnvar=MODEL_NV[model], mndim=MODEL_ND[model], nndim=0, nbsimu=nbsimu, has_in=0)
         sc.nc_model = nc; sc.names = ['FFT.1', 'FFT', 'FFT.2']
         return sc
@@ -367,18 +367,15 @@ class Dump:
 
 def source_lguard():
     """tiny translator: does Db::setLocatorByUID of the CURRENT source return at once for the uid of a deleted column?
-       (the model follows the source on this point: field d_lguard of coq/C19/Model.v)"""
+       (hard-wired in coq/C19/Model.v, set_locator_ok; asserted here)"""
     try: src = open(os.path.join(REPO, 'src', 'Db', 'Db.cpp')).read()
     except OSError: return 0
     m = re.search(r'void Db::setLocatorByUID\(int iuid,.*?\n\}\n', src, re.S)
     body = m.group(0) if m else ''
     return 1 if re.search(r'if\s*\(\s*_uidcol\[iuid\]\s*<\s*0\s*\)\s*return', body) else 0
-LGUARD = None
 def model_db(d):
     """Db of the model from a dump: the content of column uid is 'Orig uid'"""
-    global LGUARD
-    if LGUARD is None: LGUARD = source_lguard()
-    return [d.grid, d.ndim if d.grid else 0, d.nuid, [[c[0], S(c[1]), [0, c[0]]] for c in d.cols], d.locs, LGUARD]
+    return [d.grid, d.ndim if d.grid else 0, d.nuid, [[c[0], S(c[1]), [0, c[0]]] for c in d.cols], d.locs]
 
 def content_class(vals):
     if all(v == () for v in vals): return 'na'
@@ -443,7 +440,6 @@ def key_of(sc, which, diffs, success):
         return calc + ':external-drift-expansion-left-in-dbin' 
     ts = [d[1][0] for d in diffs if d[0] == 'roles-changed']
     if not success:
-        late = sc.fail_after == 4
         if 'columns-left' in kinds:
             if base == 'single-target': return calc + ':single-target-temp-left'
             if base == 'dgm' and which == 'in': return calc + ':dgm-roles-not-restored'
@@ -453,9 +449,6 @@ def key_of(sc, which, diffs, success):
             return '%s:%s-variables-left-in-db%s' % (calc, base, which)
         if 'roles-changed' in kinds:
             if base == 'dgm' and which == 'in' and L_X in ts: return calc + ':dgm-roles-not-restored'
-            if late:
-                if base == 'single-target': return calc + ':single-target-stale-locator'
-                return calc + ':late-failure-locators-not-restored'
             if L_SIMU in ts: return calc + ':existing-simu-locator-lost'
             stage = 'stage%d' % sc.fail_after if sc.fail_after > 0 else 'natural'
             return '%s:%s-failure-%s-locator%d-changed-in-db%s' % (calc, base, stage, ts[0], which)
@@ -469,9 +462,9 @@ def cfg_sx(sc):
     c = sc.cfg
     return [sc.nc_model, int(c['est']), int(c['std']), int(c['varz']), c['single'], int(c['dgm']), int(c['xvalid']), c['xv_est'], c['xv_std'], c['xv_varz'],
             int(c['neigh_only']), c['nbneigh'], c['matlc'], c['mnvar'], c['mndim'], c['nndim'], c['nfex'], int(c['extra_ok']), c['iuids'],
-            int(c['locate']), c['loctype'], c['nbsimu'], c['mode'], c['n'], int(c['has_in']), int(c['fixed'])]
+            int(c['locate']), c['loctype'], c['nbsimu'], c['mode'], c['n'], int(c['has_in'])]
 
-EMPTY_DB = [0, 0, 0, [], [[] for _ in range(NLOC)], 0]
+EMPTY_DB = [0, 0, 0, [], [[] for _ in range(NLOC)]]
 def model_case(sc, bin_, bout, fs):
     din = model_db(bin_) if sc.cfg['has_in'] else EMPTY_DB
     return [sc.id, cfg_sx(sc), sc.alias, fs, 1000, din, model_db(bout), getattr(sc, 'model_aux', [])]
@@ -511,6 +504,10 @@ def run(ctx):
         sys.exit(3)
     if runner is None:
         print('ERROR: model runner does not build'); sys.exit(3)
+    if not source_lguard():
+        ctx.violation('model-drift:Db::setLocatorByUID', 'Db::setLocatorByUID no longer returns at once for the uid of a deleted column '
+                      '("if (_uidcol[iuid] < 0) return;" not found): coq/C19/Model.v (set_locator_ok) no longer mirrors the source',
+                      {'correspondence': 'coq/C19/Model.v set_locator_ok vs src/Db/Db.cpp Db::setLocatorByUID'}, found_input=False)
     rng = ctx.rng
     base = []
     for rep in range(1 if quick else 3):
@@ -564,9 +561,14 @@ def run(ctx):
         if len(ctx.cov['samples']) < 4 and sc.fail_after in (2, 3): ctx.sample({'scenario': ckey, 'ret': ret, 'before_out': bo.short(), 'after_out': ao.short()})
         # (a) the property itself
         viol = []
+        late = sc.fail_after == 4     # forced after the last stage has returned true: outside the property (nothing can fail
+                                      # there); kept for the correspondence only (roll-back after a completed _postprocess)
+        if late: ctx.dist('late_failure_correspondence_only')
         if sc.fail_after > 0 and ret == 1:
             viol.append(('injected-failure-not-reported', 'out', [('ret', 1)]))
-        if ret == 0:
+        if ret == 0 and late:
+            pass
+        elif ret == 0:
             for which, b, a in (('in', bi, ai),) + ((('out', bo, ao),) if not sc.alias else ()):
                 d = diff_same(b, a)
                 if d: viol.append((key_of(sc, which, d, False), which, d))
@@ -597,10 +599,11 @@ def run(ctx):
         if fs == 0 and ret == 0 and last == 2: fs = 3
         sc.fs = fs
         mcases.append(model_case(sc, bi, bo if not sc.alias else bi, fs)); midx.append(i)
-    if os.environ.get('VERIF_C19_WRITE_CORPUS'):
-        with open(os.path.join(VERIF, 'corpus', ctx.pid + '.sx'), 'w') as f:
-            f.write('# C19 corpus: (key description harness-case), one minimal case per defect reproduced on the pinned tree; always run first\n')
+    if os.environ.get('VERIF_C19_WRITE_CORPUS'):      # development aid: append one minimal case per NEW key (never removes a regression case)
+        have = set(US(c[0]) for c in corpus)
+        with open(os.path.join(VERIF, 'corpus', ctx.pid + '.sx'), 'a') as f:
             for key in sorted(first_by_key):
+                if key in have: continue
                 sc = first_by_key[key]
                 what = '%s/%s/%s/fail_after=%d' % (sc.name(), sc.variant, '+'.join(sc.tags) or 'plain', sc.fail_after)
                 f.write('# %s  --  %s\n' % (key, what))
@@ -646,7 +649,6 @@ def run(ctx):
     ctx.cov['model_predicts_non_atomic_failures'] = n_model_nonatomic
     ctx.cov['cases_under_proved_condition_wf_atomic'] = n_wf
     ctx.cov['cases_under_proved_condition_wf_success'] = n_wfs
-    ctx.cov['source_setLocatorByUID_ignores_deleted_uid'] = LGUARD
     ctx.cov['rule'] = ('case = calculator entry point x option variant x prior contents of both Dbs (uid holes, unused uid tail, existing variables with the '
                        'locator the calculator sets, names clashing with the naming convention or with the provisional names "", ".1") x failure point '
                        '(none, injected after check/preprocess/run/postprocess, natural failures); distinct = distinct (calculator, variant, prior tags, '
